@@ -377,15 +377,15 @@ Proof.
   intros [= _ <-]. destruct (connect_events _ _ _ E) as (i & e & rest & ->). rewrite G_init_delay. cbn. eauto.
 Qed.
 
-Theorem retry_policy : forall s s' ev c o, reachable s -> contract s Down = true ->
+Theorem retry_policy : forall s s' ev c o, reachable s ->
   find_down (conns s) 0 None = Some c -> nth_error (conns s) c = Some o -> ccb o = CbClient ->
   step s Down = Ok s' ev ->
   (c_retry s && c_connect s = true -> exists i e rest, ev = EvDown c :: EvWant :: EvCycle 500 :: EvAttempt i e :: rest) /\
   (c_retry s && c_connect s = false -> exists g, ev = EvDown c :: g /\ Forall is_connclose g).
 Proof.
-  intros s s' ev c o Hr Hc Hf Ho Hb Hst.
+  intros s s' ev c o Hr Hf Ho Hb Hst.
   destruct (reachable_Inv _ Hr) as (K & Kd & St & [D C] & Cr & X).
-  destruct (find_down_spec _ _ _ _ Hf) as [E|(o' & Ho' & _ & Ha & Hg & Hl)]; [discriminate|]. rewrite Nat.sub_0_r, Ho in Ho'. injection Ho' as <-.
+  destruct (find_down_spec _ _ _ _ Hf) as [E|(o' & Ho' & _ & Ha & Hg & Hl & _)]; [discriminate|]. rewrite Nat.sub_0_r, Ho in Ho'. injection Ho' as <-.
   destruct C as [_ _ _ Ccb _ _ _ _ _ _ _ _]. destruct (Ccb _ _ Ho Ha Hl Hb) as [Al Cn].
   destruct (step_events _ _ _ _ Hst) as (s1 & ev1 & g & Hcore & -> & Hg').
   cbn [step_core] in Hcore. rewrite Hf in Hcore. injection Hcore as Hcore.
